@@ -43,6 +43,7 @@ pub fn scenarios(prop: &str, tier: Tier) -> Vec<ScenarioDef> {
     match prop {
         "C01" => crate::c01::scenarios("C01", tier),
         "C02" => crate::c01::scenarios("C02", tier),
+        "C03" => crate::c03::scenarios(tier),
         "C04" => crate::c04::scenarios(tier),
         "C18" => crate::c18::scenarios(tier),
         _ => Vec::new(),
